@@ -645,24 +645,29 @@ instance (a b : Key) : Decidable (klt a b) := by unfold klt; infer_instance
 example : Sorted (insertKey (1, 2) m2 (insertKey (2, 1) m1 (insertKey (1, 1) m1 []))) := by
   unfold Sorted; decide +kernel
 
-/-- the model run of `corpus/C40/expired-with-notification.ops` -/
-def expiredWitness : Outcome Sess :=
+/-- the model run of `corpus/C40/expired-with-notification.ops` under a source variant -/
+def expiredWitness (c : Cfg) : Outcome Sess :=
   let s0 := init [(1, 0)]
   let s1 := (createSub s0 255 1 2 6 true).1
   let s2 := (createItem s1 5 1 1 1 3 true .reporting none).1
-  match publish current s2 1 (some [(1, 2)]) with
+  match publish c s2 1 (some [(1, 2)]) with
   | .panic => .panic
   | .ok (s3, _) =>
     let tick := fun (o : Outcome Sess) (dt : Nat) => match o with
-      | .ok s => timer current s dt
+      | .ok s => timer c s dt
       | .panic => .panic
     let o := [1, 1, 1, 1, 1].foldl tick (.ok s3)
     match o with
-    | .ok s => timer current (write s 1 3) 6
+    | .ok s => timer c (write s 1 3) 6
     | .panic => .panic
 
-/-- **Recorded finding** (outside the C40 statement, owned by the C22/C26 slice): when a subscription
-expires on a tick on which its monitored items have data, `handle_state_result` panics. -/
-theorem C40_counterexample_expired_with_notification : expiredWitness = .panic := by decide +kernel
+/-- **Repaired finding** (outside the C40 statement, repaired by the C22/C26 slice): before that fix, a
+subscription expiring on a tick on which its monitored items have data made `handle_state_result`
+panic. -/
+theorem C40_counterexample_expired_with_notification : expiredWitness preExpiryFix = .panic := by
+  decide +kernel
+
+/-- with the integrated source the same history closes the subscription normally -/
+theorem expired_with_notification_repaired : expiredWitness current ≠ .panic := by decide +kernel
 
 end OpcuaVerif.C40
